@@ -557,7 +557,7 @@ package kapacitor
 // "A count window emitted after the k-th point contains exactly the last min(k, periodCount)
 // points, every everyCount points."
 //@ func (*windowByCount).Point
-//@   props C03
+//@   props C03 C05
 //@   requires wcOK(w) && p != nil
 //@   modifies w.start, w.stop, w.size, w.count, w.nextEmit, elems(w.buf)
 //@   ensures wcOK(w) && w.count == old(w.count) + 1
@@ -574,7 +574,7 @@ package kapacitor
 //@   ensures result != nil
 
 //@ func (*windowByCount).points
-//@   props C03
+//@   props C03 C05
 //@   requires w != nil && w.period > 0 && len(w.buf) == w.period && 0 <= w.start && w.start < w.period && 0 <= w.stop && w.stop < w.period
 //@       && 0 <= w.size && w.size <= w.period && w.stop == qidx(w.start, w.size, w.period)
 //@   modifies nothing
@@ -605,7 +605,7 @@ package kapacitor
 // insert appends the point to the live region (growing or wrapping as needed); nothing already
 // buffered is lost, duplicated or reordered.
 //@ func (*windowTimeBuffer).insert
-//@   props C03
+//@   props C03 C05
 //@   requires wtOK(b) && wtDead(b) && wtSorted(b) && p != nil
 //@   requires forall i int :: 0 <= i && i < b.size ==> wtView(b, i).Time() <= p.Time()
 //@   modifies b.window, b.start, b.stop, b.size, elems(b.window)
@@ -630,7 +630,7 @@ package kapacitor
 
 // The predicate purge keeps points by.
 //@ func (*windowTimeBuffer).purge$1
-//@   props C03
+//@   props C03 C05
 //@   pure
 //@   ensures result == ite(inclusive, !(t < oldest), t > oldest)
 
@@ -640,7 +640,7 @@ package kapacitor
 // suffix of what was there, in order, and its first point (if any) is kept. The dead-slot fact
 // is re-established for the new low-water mark.
 //@ func (*windowTimeBuffer).purge
-//@   props C03
+//@   props C03 C05
 //@   requires wtOK(b) && wtDead(b) && wtSorted(b) && inclusive == gf(b, incl, bool) && oldest >= gf(b, lowWater, time.Time)
 //@   modifies b.start, b.size, gf(b, lowWater, time.Time)
 //@   ghostset gf(b, lowWater, time.Time) := oldest
@@ -674,7 +674,7 @@ package kapacitor
 // time T contains ... [T-period, T) (for every()=0: (t-period, t] of the triggering point)":
 // when and with which bounds the buffer is purged and the batch cut.
 //@ func (*windowByTime).Point
-//@   props C03
+//@   props C03 C05
 //@   requires w != nil && wtOK(w.buf) && wtDead(w.buf) && wtSorted(w.buf) && p != nil && w.every >= 0
 //@   requires gf(w.buf, incl, bool) == (w.every != 0)
 //@   requires forall i int :: 0 <= i && i < w.buf.size ==> wtView(w.buf, i).Time() <= p.Time()
@@ -696,7 +696,7 @@ package kapacitor
 
 // points copies the live region out, oldest first, as batch points.
 //@ func (*windowTimeBuffer).points
-//@   props C03
+//@   props C03 C05
 //@   requires wtOK(b)
 //@   modifies nothing
 //@   ensures len(result) == b.size
